@@ -165,7 +165,7 @@ def run(ctx):
     vlib.tlc_must_pass(r, "MCCLRewards")
     log("MC mechanism: %d distinct / %d generated states, depth %d, %.0fs" % (r.distinct, r.generated, r.depth, r.wall))
     ctx.leg = "trace"
-    nh, nops = (24, 100) if q else (320, 160)
+    nh, nops = (24, 100) if q else (200, 160)
     ctx.params = {"histories": nh, "ops": nops}
     trace = clc.record(ctx, "C08", nh, nops)
     kinds, samples, n = clc.summarise(trace)
